@@ -215,6 +215,11 @@ def expect(layer, fn, b, fw=None):
     return None
 
 
+def write_faulted(rec):
+    """A write of this call raised: a request handed over in pieces may have got out only in part."""
+    return any(f[1] == 'write' for f in rec['faults_fired'])
+
+
 def split_wire(w):
     parts = w.split('\r')
     tail = parts.pop()
@@ -303,6 +308,10 @@ def check(scn, hist):
         if op['op'] == 'lopen':
             slot_port[op['slot']] = op['port']
             continue
+        if op['op'] == 'env':
+            if op['what'] == 'replace_device':
+                specs[op['port']] = dict(op['spec'], port=op['port'])
+            continue
         oid = rec['id']
         faulty = bool(rec['faults_fired']) or any(q.get('plan') and set(q['plan']) - {'at', 'delay'}
                                                   for q in rec['requests'])
@@ -337,7 +346,7 @@ def check(scn, hist):
             if other:
                 out.append(V(PROP, 'wire', fn, oid, 'bytes on another port: %r' % other))
             reqs, tail = split_wire(rec['wire'].get(port, ''))
-            if tail:
+            if tail and not write_faulted(rec):
                 out.append(V(PROP, 'wire', fn, oid, 'unterminated text %r' % tail))
                 continue
             msg = judge(ex[0], ex[1], reqs, faulty, False)
@@ -376,7 +385,7 @@ def check(scn, hist):
             if other:
                 out.append(V(PROP, 'wire', fn, oid, 'bytes on another port: %r' % other))
             reqs, tail = split_wire(rec['wire'].get(port, ''))
-            if tail:
+            if tail and not write_faulted(rec):
                 out.append(V(PROP, 'wire', fn, oid, 'unterminated text %r' % tail))
                 continue
             msg = judge(ex[0], ex[1], reqs, faulty, True)
@@ -662,14 +671,19 @@ def gen_request(rng):
     raise ValueError(kind)
 
 
-def build(world, reqs, no_port=False, unconnected=False):
+def build(world, reqs, no_port=False, unconnected=False, swaps=None):
     lport = world['boards'][0]['port']
     eport = world['boards'][1]['port']
     ops = [{'op': 'lopen', 'slot': 0, 'port': lport}, {'op': 'new', 'obj': 0}]
     if not unconnected:
         ops.append(call(0, 'connect', [eport]))
     pair = 0
-    for group in reqs:
+    for gi, group in enumerate(reqs):
+        if swaps and gi in swaps:
+            # the legacy port is closed, another board takes over its port name, the port is opened again
+            ops.append(lcall('ebb_serial.closePort', [{'slot': 0}]))
+            ops.append({'op': 'env', 'what': 'replace_device', 'port': lport, 'spec': swaps[gi]})
+            ops.append({'op': 'lopen', 'slot': 0, 'port': lport})
         pair += 1
         for layer, fn, a, k in group:
             if layer == 'legacy':
@@ -707,7 +721,14 @@ def gen(rng, idx):
         ops = build(world, reqs)
         mode = 'faulty'
     else:
-        ops = build(world, reqs)
+        swaps = None
+        if rng.random() < 0.12:
+            swaps = {}
+            for _ in range(rng.randint(1, 2)):
+                b = dict(world['boards'][0])
+                b['fw'] = rng.choice([[2, 5, 5], [2, 6, 0], [2, 8, 1], [2, 2, 2], [2, 10, 0], [2, 5, 9], [2, 1, 0]])
+                swaps[rng.randrange(1, n)] = b
+        ops = build(world, reqs, swaps=swaps)
     scn = {'prop': PROP, 'world': world, 'ops': ops, 'faults': {}, 'cfg': {'mode': mode}}
     if mode == 'noport':
         return scn
